@@ -366,49 +366,52 @@ theorem intsetAll_blob (width : Nat) (vs : List Int) (hw : width = 2 ∨ width =
 
 /-! ### zipmap -/
 
-theorem zmItem_field (f rest : Bytes) (h : f.length < 253) :
-    zmItem false (UInt8.ofNat f.length :: (f ++ rest)) = some (f, rest) := by
-  have hb : (UInt8.ofNat f.length).toNat = f.length := u8_toNat _ (by omega)
-  have n1 : UInt8.ofNat f.length ≠ 253 := by
-    intro e; have := congrArg UInt8.toNat e; rw [hb] at this
-    have : (253 : UInt8).toNat = 253 := by decide
-    omega
-  have n2 : UInt8.ofNat f.length ≠ 254 := by
-    intro e; have := congrArg UInt8.toNat e; rw [hb] at this
-    have : (254 : UInt8).toNat = 254 := by decide
-    omega
-  have n3 : UInt8.ofNat f.length ≠ 255 := by
-    intro e; have := congrArg UInt8.toNat e; rw [hb] at this
-    have : (255 : UInt8).toNat = 255 := by decide
-    omega
-  simp only [zmItem, zmItemLength, List.cons_append, n1, n2, n3, if_false, hb, Bool.false_eq_true]
+/-- the length prefix of an item (1 byte, or 254 + 4 bytes LE) is read back -/
+theorem zmItemLength_zmLen_field (l : Nat) (rest : Bytes) (h : l < 2 ^ 32) :
+    zmItemLength false (zmLen l ++ rest) = some ((some l, 0), rest) := by
+  unfold zmLen
+  by_cases hs : l < 254
+  · have hb : (UInt8.ofNat l).toNat = l := u8_toNat _ (by omega)
+    have n2 : UInt8.ofNat l ≠ 254 := u8_ne _ _ (by omega) (by simp; omega)
+    have n3 : UInt8.ofNat l ≠ 255 := u8_ne _ _ (by omega) (by simp; omega)
+    simp [hs, zmItemLength, n2, n3, hb]
+  · simp only [hs, if_false, List.cons_append, zmItemLength,
+      show ((254 : UInt8) = 255) = False by decide, if_true]
+    rw [readN_append' 4 _ _ (leN_length 4 _)]
+    simp only [ofLE_leN' 4 l (by simpa using h)]
+    simp
+
+theorem zmItemLength_zmLen_value (l free : Nat) (rest : Bytes) (h : l < 2 ^ 32) (hf : free < 256) :
+    zmItemLength true (zmLen l ++ UInt8.ofNat free :: rest) = some ((some l, free), rest) := by
+  have hfb : (UInt8.ofNat free).toNat = free := u8_toNat _ hf
+  unfold zmLen
+  by_cases hs : l < 254
+  · have hb : (UInt8.ofNat l).toNat = l := u8_toNat _ (by omega)
+    have n2 : UInt8.ofNat l ≠ 254 := u8_ne _ _ (by omega) (by simp; omega)
+    have n3 : UInt8.ofNat l ≠ 255 := u8_ne _ _ (by omega) (by simp; omega)
+    simp [hs, zmItemLength, n2, n3, hb, hfb]
+  · simp only [hs, if_false, List.cons_append, zmItemLength,
+      show ((254 : UInt8) = 255) = False by decide, if_true]
+    rw [readN_append' 4 _ _ (leN_length 4 _)]
+    simp only [ofLE_leN' 4 l (by simpa using h)]
+    simp [hfb]
+
+theorem zmItem_field (f rest : Bytes) (h : f.length < 2 ^ 32) :
+    zmItem false (zmLen f.length ++ (f ++ rest)) = some (f, rest) := by
+  simp only [zmItem, zmItemLength_zmLen_field f.length _ h]
   rw [readN_append]
   simp
 
-theorem zmItem_value (v rest : Bytes) (free : Nat) (h : v.length < 253) (hf : free < 256) :
-    zmItem true (UInt8.ofNat v.length :: UInt8.ofNat free :: (v ++ (List.replicate free 0 ++ rest))) =
+theorem zmItem_value (v rest : Bytes) (free : Nat) (h : v.length < 2 ^ 32) (hf : free < 256) :
+    zmItem true (zmLen v.length ++ UInt8.ofNat free :: (v ++ (List.replicate free 0 ++ rest))) =
       some (v, rest) := by
-  have hb : (UInt8.ofNat v.length).toNat = v.length := u8_toNat _ (by omega)
-  have hfb : (UInt8.ofNat free).toNat = free := u8_toNat _ hf
-  have n1 : UInt8.ofNat v.length ≠ 253 := by
-    intro e; have := congrArg UInt8.toNat e; rw [hb] at this
-    have : (253 : UInt8).toNat = 253 := by decide
-    omega
-  have n2 : UInt8.ofNat v.length ≠ 254 := by
-    intro e; have := congrArg UInt8.toNat e; rw [hb] at this
-    have : (254 : UInt8).toNat = 254 := by decide
-    omega
-  have n3 : UInt8.ofNat v.length ≠ 255 := by
-    intro e; have := congrArg UInt8.toNat e; rw [hb] at this
-    have : (255 : UInt8).toNat = 255 := by decide
-    omega
-  simp only [zmItem, zmItemLength, List.cons_append, n1, n2, n3, if_false, hb, hfb, if_true, List.append_assoc]
+  simp only [zmItem, zmItemLength_zmLen_value v.length free _ h hf]
   rw [readN_append]
   simp only
   rw [List.drop_left' (by simp)]
 
 theorem zmPairs_blob (items : List (Bytes × Bytes × Nat)) (rest : Bytes)
-    (h : ∀ i ∈ items, i.1.length < 253 ∧ i.2.1.length < 253 ∧ i.2.2 < 256) :
+    (h : ∀ i ∈ items, i.1.length < 2 ^ 32 ∧ i.2.1.length < 2 ^ 32 ∧ i.2.2 < 256) :
     zmPairs items.length (items.flatMap zipmapItem ++ rest) = some (items.map (fun i => (i.1, i.2.1))) := by
   induction items with
   | nil => simp [zmPairs]
@@ -422,14 +425,73 @@ theorem zmPairs_blob (items : List (Bytes × Bytes × Nat)) (rest : Bytes)
     rw [ih (fun x hx => h x (List.mem_cons_of_mem _ hx))]
     rfl
 
-theorem zipmapAll_blob (items : List (Bytes × Bytes × Nat)) (hl : items.length < 254)
-    (h : ∀ i ∈ items, i.1.length < 253 ∧ i.2.1.length < 253 ∧ i.2.2 < 256) :
+/-- the counting walk over a well-formed map sees two items per pair -/
+theorem zmCount_blob (items : List (Bytes × Bytes × Nat)) (rest : Bytes) (fuel n : Nat)
+    (h : ∀ i ∈ items, i.1.length < 2 ^ 32 ∧ i.2.1.length < 2 ^ 32 ∧ i.2.2 < 256)
+    (hn : n % 2 = 0) (hfuel : 2 * items.length < fuel) :
+    zmCount fuel n (items.flatMap zipmapItem ++ 0xFF :: rest) = some (n + 2 * items.length) := by
+  induction items generalizing fuel n with
+  | nil =>
+    obtain ⟨fuel, rfl⟩ : ∃ k, fuel = k + 1 := ⟨fuel - 1, by simp at hfuel; omega⟩
+    simp [zmCount, zmItemLength]
+  | cons i items ih =>
+    obtain ⟨h1, h2, h3⟩ := h i (List.mem_cons_self ..)
+    simp only [List.length_cons] at hfuel
+    obtain ⟨fuel, rfl⟩ : ∃ k, fuel = k + 2 := ⟨fuel - 2, by omega⟩
+    have hn1 : (n % 2 != 0) = false := by simp [hn]
+    have hn2 : ((n + 1) % 2 != 0) = true := by
+      have : (n + 1) % 2 = 1 := by omega
+      simp [this]
+    simp only [List.flatMap_cons, zipmapItem, List.append_assoc, List.cons_append]
+    rw [zmCount, hn1, zmItemLength_zmLen_field _ _ h1]
+    simp only [Nat.add_zero]
+    rw [List.drop_left' rfl]
+    rw [zmCount, hn2, zmItemLength_zmLen_value _ _ _ h2 h3]
+    simp only
+    have hd : ∀ (tl : Bytes), List.drop (i.2.1.length + i.2.2) (i.2.1 ++ (List.replicate i.2.2 0 ++ tl)) = tl := by
+      intro tl
+      rw [← List.append_assoc]
+      exact List.drop_left' (by simp)
+    rw [hd]
+    rw [ih fuel (n + 1 + 1) (fun x hx => h x (List.mem_cons_of_mem _ hx)) (by omega) (by omega)]
+    simp only [List.length_cons]
+    congr 1
+    omega
+
+theorem zipmapItem_length_ge (i : Bytes × Bytes × Nat) : 3 ≤ (zipmapItem i).length := by
+  unfold zipmapItem zmLen
+  split <;> split <;> simp <;> omega
+
+theorem flatMap_zipmapItem_length_ge (items : List (Bytes × Bytes × Nat)) :
+    3 * items.length ≤ (items.flatMap zipmapItem).length := by
+  induction items with
+  | nil => simp
+  | cons i items ih =>
+    have := zipmapItem_length_ge i
+    simp only [List.flatMap_cons, List.length_append, List.length_cons]
+    omega
+
+/-- a zipmap of ANY number of pairs, with items of any length below 2^32, decodes
+    to its pairs (`<zmlen>` exact below 254 pairs, else the counting walk) -/
+theorem zipmapAll_blob (items : List (Bytes × Bytes × Nat))
+    (h : ∀ i ∈ items, i.1.length < 2 ^ 32 ∧ i.2.1.length < 2 ^ 32 ∧ i.2.2 < 256) :
     zipmapAll (zipmapBlob items) = some (items.map (fun i => (i.1, i.2.1))) := by
   unfold zipmapAll zipmapBlob
   simp only
-  rw [u8_toNat items.length (by omega)]
-  have : ¬ items.length ≥ 254 := by omega
-  simp only [this, if_false]
-  exact zmPairs_blob items [0xFF] h
+  by_cases hl : items.length < 254
+  · simp only [hl, if_true]
+    rw [u8_toNat items.length (by omega)]
+    have : ¬ items.length ≥ 254 := by omega
+    simp only [this, if_false]
+    exact zmPairs_blob items [0xFF] h
+  · simp only [hl, if_false]
+    have : (UInt8.ofNat 254).toNat ≥ 254 := by decide
+    simp only [this, if_true]
+    have hlen := flatMap_zipmapItem_length_ge items
+    rw [zmCount_blob items [] _ 0 h rfl (by simp only [List.length_cons, List.length_append]; omega)]
+    have h2 : (0 + 2 * items.length) % 2 = 0 := by omega
+    have h3 : (0 + 2 * items.length) / 2 = items.length := by omega
+    simp only [h2, h3, ne_eq, not_true_eq_false, if_false]
+    exact zmPairs_blob items [0xFF] h
 
 end GunYu.Rdb
